@@ -68,12 +68,12 @@ def upvar_source(prog, cb, e):
             k = x["f"]
     if k is None:
         return None
-    parent = prog.bodies.get(cb.parent) if cb.parent else None
+    parent = prog.any_body(cb.parent) if cb.parent else None
     # nested closures: the creating body is the lexical parent closure, whose id prefixes cb.id
     cands = [parent] if parent is not None else []
     pid = cb.id.rsplit("::{closure#", 1)[0]
-    if pid in prog.bodies and prog.bodies[pid] not in cands:
-        cands.insert(0, prog.bodies[pid])
+    if prog.any_body(pid) is not None and prog.any_body(pid) not in cands:
+        cands.insert(0, prog.any_body(pid))
     for pb in cands:
         sites = []
         for bi, si, st in pb.statements():
@@ -267,6 +267,15 @@ def role_place(body, p, depth=8):
     if r["rv"] == "bin":
         return "(%s %s %s)%s" % (role(body, r["a"], depth - 1), r["op"].replace("WithOverflow", ""), role(body, r["b"], depth - 1), suffix)
     if r["rv"] == "agg":
+        # field N of a tuple / array temporary built by one aggregate (format_args!, destructuring): the N-th operand
+        if r.get("kind") in ("tuple", "array") and len(p) >= 2 and isinstance(p[1], dict) and set(p[1].keys()) == {"f"} and p[1]["f"] < len(r["ops"]):
+            inner = role(body, r["ops"][p[1]["f"]], depth - 1)
+            rest = ""
+            for e in p[2:]:
+                rest += ".*" if e == "*" else ("." + e["n"] if isinstance(e, dict) and "n" in e else (".%d" % e["f"] if isinstance(e, dict) and "f" in e else "[]"))
+            if rest.startswith(".*") and inner.startswith("&"):
+                return inner[1:] + rest[2:]
+            return inner + rest
         return "agg" + suffix
     return r["rv"] + suffix
 
